@@ -948,7 +948,9 @@ def task_allow_rename():
                 tl = interp.getattr(st, 'targets')
                 if ctx.data(tl).symlen is not None:
                     ctx.assume(ctx.data(tl).symlen >= 1)       # AST validity: an Assign has at least one target
-                if not ctx.data(tl).items:
+                # the universal over the targets is carried by the arbitrary element of a loop over them; a code that only looks at fixed
+                # positions (targets[0]) has established nothing for the others: `a = __all__ = [...]`  (seed C10-5)
+                if not any(isinstance(tk, tuple) and tk and tk[0] == 'g' for tk in ctx.data(tl).items):
                     t0 = interp.list_elem(tl, ('g', 'post'))
                     if 'Name' in ctx.data(t0).tags and ctx.branch(ctx.data(t0).tagvar == tag_const('Name')):
                         interp.narrow(t0, {'Name'})
